@@ -1271,7 +1271,7 @@ fn gen_malformed(rng: &mut Rng) -> (&'static str, Vec<u8>, bool) {
         "cl-inner-space", "te-twice", "te-http10", "te-gzip", "te-gzip-chunked", "te-chunked-gzip", "te-chunked-chunked", "te-identity",
         "te-xchunked", "te-obs", "post10-nocl", "sp-before-colon", "bad-version", "no-colon", "too-many-headers", "ch-badsize",
         "ch-empty-size", "ch-lws-only", "ch-ext-only", "ch-lws-digit", "ch-ext-ctl", "ch-size-nolf", "ch-data-nocr", "ch-data-nolf", "ch-overflow",
-        "ch-trailer", "ch-end-nolf", "ch-bare-lf", "ch-neg", "ch-0x", "oversize",
+        "ch-trailer", "ch-end-nolf", "ch-last-nolf", "ch-last-lws-digit", "ch-bare-lf", "ch-neg", "ch-0x", "oversize",
     ];
     let c = *rng.pick(classes);
     let mut head_level = true;
@@ -1335,6 +1335,8 @@ fn gen_malformed(rng: &mut Rng) -> (&'static str, Vec<u8>, bool) {
                 "ch-overflow" => out.extend_from_slice(b"10000000000000000\r\nabc\r\n0\r\n\r\n"),
                 "ch-trailer" => out.extend_from_slice(b"0\r\nX-T: v\r\n\r\n"),
                 "ch-end-nolf" => out.extend_from_slice(b"0\r\n\rX"),
+                "ch-last-nolf" => out.extend_from_slice(b"0\rX\r\n"),
+                "ch-last-lws-digit" => out.extend_from_slice(b"0 0\r\n\r\n"),
                 "ch-bare-lf" => out.extend_from_slice(b"3\nabc\r\n0\r\n\r\n"),
                 "ch-neg" => out.extend_from_slice(b"-3\r\nabc\r\n0\r\n\r\n"),
                 "ch-0x" => out.extend_from_slice(b"0x3\r\nabc\r\n0\r\n\r\n"),
@@ -1465,7 +1467,7 @@ fn gen(ctx: &Ctx) -> Vec<String> {
     let mut cases = Vec::new();
     let thorough = ctx.tier != Tier::Quick;
     // ---- codec level
-    let n_streams = ctx.budget(340);
+    let n_streams = ctx.budget(300);
     for i in 0..n_streams {
         let big = i % 9 == 0;
         let st = gen_stream(&mut rng, big, false);
@@ -1474,7 +1476,7 @@ fn gen(ctx: &Ctx) -> Vec<String> {
         let pre = |spec: &str| format!("codec s={}{} cls={} {}", spec, x, st.cls, hx);
         let len = st.bytes.len();
         cases.push(pre("w"));
-        if len <= 700 || (thorough && len <= 2500) {
+        if len <= 600 || (thorough && len <= 2500) {
             cases.push(pre("a2"));
         } else {
             for _ in 0..6 {
@@ -1496,7 +1498,7 @@ fn gen(ctx: &Ctx) -> Vec<String> {
         }
     }
     // ---- conn level
-    let n_conn = ctx.budget(220);
+    let n_conn = ctx.budget(200);
     for _ in 0..n_conn {
         let st = gen_stream(&mut rng, false, true);
         let hx = hex(&st.bytes);
